@@ -346,7 +346,17 @@ class TStr:
         return TStr([("sub", z3.simplify(lo + a), z3.simplify(lo + b))], self.n)
 
     # str methods the analysed code uses (content facts, see Facts)
-    def endswith(self, suf):
+    def endswith(self, suf, *_ignored):
+        if isinstance(suf, TStr):
+            a, b = self.single() or (None, None), suf.single() or (None, None)
+            if a[0] is not None and b[0] is not None:
+                if ENGINE.implied(z3.And(b[1] == a[1], b[0] >= a[0])):
+                    return True  # positionally a suffix
+                if self.key() == suf.key():
+                    return True
+                # harness assumption: a slice that does not end where the text ends is not textually its suffix
+                return False
+            raise NotEncodable("endswith(symbolic text)")
         if not isinstance(suf, str):
             raise NotEncodable("endswith(non-literal)")
         if self.atoms and self.atoms[-1][0] == "lit" and len(self.atoms[-1][1]) >= len(suf):
@@ -355,7 +365,7 @@ class TStr:
             return "".endswith(suf)
         return ENGINE.facts.endswith(self, suf)
 
-    def startswith(self, pre):
+    def startswith(self, pre, *_ignored):
         if not isinstance(pre, str):
             raise NotEncodable("startswith(non-literal)")
         if self.atoms and self.atoms[0][0] == "lit" and len(self.atoms[0][1]) >= len(pre):
@@ -374,13 +384,13 @@ class TStr:
         return bool(ENGINE.facts.has(self, item))
 
     def strip(self, chars=None):
-        return ENGINE.facts.strip(self, True, True)
+        return ENGINE.facts.strip(self, True, True, chars)
 
     def lstrip(self, chars=None):
-        return ENGINE.facts.strip(self, True, False)
+        return ENGINE.facts.strip(self, True, False, chars)
 
     def rstrip(self, chars=None):
-        return ENGINE.facts.strip(self, False, True)
+        return ENGINE.facts.strip(self, False, True, chars)
 
     def covers(self, lo, hi):
         """z3 condition: the atoms are exactly base[lo:hi], in order (contiguity)."""
@@ -460,25 +470,33 @@ class Facts:
             return False  # harness bound: this literal does not occur in the text at all
         return mkbool(self._fact(t, "has", lit))
 
-    def strip(self, t, left=True, right=True):
-        """a slice with 0..len characters removed from the chosen ends."""
+    def strip(self, t, left=True, right=True, chars=None):
+        """a slice with characters removed from the chosen ends.  Per slice and character set there is ONE
+        left amount L and ONE right amount R (so strip / lstrip / rstrip of the same text agree)."""
         if not t.atoms:
             return t
         sg = t.single()
         if sg is None:
             raise NotEncodable(f"strip of composite text {t}")
         lo, hi = sg
-        k = (t.key(), "strip", (left, right))
+        k = (t.key(), "strip", chars)
         if k not in self.tab:
-            a = self.eng.fresh_int("stripL") if left else z3.IntVal(0)
-            b = self.eng.fresh_int("stripR") if right else z3.IntVal(0)
-            self.eng.add(a >= 0, b >= 0, a + b <= hi - lo)
-            self.tab[k] = (a, b)
-        a, b = self.tab[k]
+            L = self.eng.fresh_int("stripL")
+            R = self.eng.fresh_int("stripR")
+            ln = hi - lo
+            # L = len iff every character is strippable iff R = len
+            self.eng.add(L >= 0, R >= 0, L <= ln, R <= ln, (L == ln) == (R == ln))
+            self.tab[k] = (L, R)
+        L, R = self.tab[k]
+        ln = hi - lo
+        a = L if left else z3.IntVal(0)
+        b = R if right else z3.IntVal(0)
+        if left and right:
+            # everything strippable -> empty
+            return TStr([("sub", z3.simplify(lo + L), z3.simplify(z3.If(L == ln, lo + L, hi - R)))], t.n)
         return TStr([("sub", z3.simplify(lo + a), z3.simplify(hi - b))], t.n)
 
 
-# ---------------------------------------------------------------- engine
 class Decision:
     __slots__ = ("choice", "alts")
 
@@ -791,7 +809,7 @@ def is_sym(x):
 
 
 class Interp:
-    def __init__(self, engine, prefixes=("eyecite",), extra_modules=("bisect",), loop_bound=64):
+    def __init__(self, engine, prefixes=("eyecite",), extra_modules=("bisect", "collections"), loop_bound=64):
         self.engine = engine
         self.prefixes = prefixes
         self.extra_modules = extra_modules
@@ -1478,6 +1496,15 @@ class Interp:
         if e is None:
             raise NotEncodable("yield outside an interpreted generator")
         return e
+
+    def e_NamedExpr(self, n, env):
+        v = self.ev(n.value, env)
+        # PEP 572: the target binds in the enclosing function scope, not in the comprehension
+        e = env
+        while e.parent is not None and not hasattr(e, "closure"):
+            e = e.parent
+        e.vars[n.target.id] = v
+        return v
 
     def e_Yield(self, n, env):
         self._yield_env(env).yields.append(self.ev(n.value, env) if n.value else None)
